@@ -596,6 +596,13 @@ def cases(tier):
         if "/abc" in mname and quick:
             continue
         cs.append(axes_case(mname, mk, accepts="Poly" not in mname))
+    # narrow residual polynomial network (every hidden layer of width 1) and two batch axes for permuted inputs
+    narrow = lambda env: symbolize(env, Polynomial_FCN(SPACES["xt"], U1, polynomial_degree=1, hidden=(1, 1), res_connection=True))
+    cs.append(rows_case("Poly-d1-res-h1x1/xt/u1", narrow, 2))
+    cs.append(perm_case("Poly-d1-res-h1x1/xt/u1", narrow, (2,)))
+    for mname in ("DeepRitz-d1/xt/u1", "FCN-tanh/xt/u1", "QRES-tanh/xt/u1"):
+        if quick:
+            cs.append(perm_case(mname, z[mname], (2, 2)))
     # the same claims after other models were evaluated on the layouts in question (process-wide state)
     for mname in ["FCN-tanh/xt/u1", "QRES-tanh/xt/u1", "Norm-sym/xt"] + ([] if quick else ["Harmonic-f1/xt/u1", "DeepRitz-d1/xt/u1", "FCN-relu/abc/u1"]):
         cs.append(perm_case("after_others:" + mname, after_others(z[mname]), (2,)))
